@@ -254,10 +254,12 @@ def run(tier, seed, replay):
         cases += rng.sample(G.exhaustive(2), 5000)
         cases += G.both_reps(rng, 2000)
         cases += G.random_cases(rng, 10000)
+        cases += G.ooc_cases(rng, 600)
     else:
         cases += G.exhaustive(3)
         cases += G.both_reps(rng, 40000)
         cases += G.random_cases(rng, 300000)
+        cases += G.ooc_cases(rng, 6000)
     impl = impl_eval(binary, cases)
     if okm:
         model = model_eval_ocaml(mbin, cases)
@@ -302,7 +304,12 @@ def run(tier, seed, replay):
             distinct.add(G.case_wire(c))
         if im != mo:
             mism.append(i)
-        if spc is not None and (im is None or (im[1], im[2]) != spc):
+        ooc = len(c) > 6 and c[6] == "ooc"
+        if ooc:
+            res.count("out_of_contract_cases")
+            if im is None:
+                res.count("out_of_contract_panics_matched_by_model" if mo is None else "out_of_contract_panics_unmatched")
+        if not ooc and spc is not None and (im is None or (im[1], im[2]) != spc):
             dev.setdefault(classify(c, im, k), []).append(i)
         if i % (len(cases) // 5 + 1) == 0:
             res.sample({"case": G.case_wire(c), "impl": im, "ieee1800": spc})
@@ -311,7 +318,8 @@ def run(tier, seed, replay):
                             "(quick: width 1 in full + 5000 sampled cases of the width-2 sweep); "
                             "both-representation pairs (the same numbers as U64 and as BigUint, width <= 64); random cases with widths 1..256 "
                             "biased to 63/64/65/127/128/129, corner values (0, 1, -1, MIN, MAX), X/Z operands, unsized all-bit literals, "
-                            "shift amounts / exponents around the width, 64, 2^32, 2^64-1, 2^64; non-trivial = first operand not a bare 0/1 "
+                            "shift amounts / exponents around the width, 64, 2^32, 2^64-1, 2^64; out-of-contract calls (width 0, operand wider "
+                            "than the context) compared with the model only, panics included; non-trivial = first operand not a bare 0/1 "
                             "constant; distinct by serialised case" % (1 if tier == "quick" else 3))
     res.coverage["ops_histogram"] = dict(ops)
     res.coverage["correspondence_mismatches"] = len(mism)
